@@ -5,7 +5,7 @@
 From PV Require Import Base.Bytes Base.Res Base.PyStr.
 From PV Require Import Gen.Status.
 From PV Require Import Model.Reply Spec.ReplyReader.
-From PV Require Import Proofs.ReplyBase Proofs.ReplyValid Proofs.ReplyError Proofs.ReplyMulti Proofs.ReplyCalls Proofs.C13P.
+From PV Require Import Proofs.ReplyBase Proofs.ReplyValid Proofs.ReplyError Proofs.ReplyMulti Proofs.ReplySubErr Proofs.ReplyCalls Proofs.C13P.
 Open Scope Z_scope.
 
 (* 1. Classification — for ALL byte strings (so "too short to contain its status words is never
@@ -36,20 +36,27 @@ Definition C13_error_text : Prop :=
 (* 3. Multi-service replies — the parse of a reply built from per-service replies gives them back,
       and each service reply is classified by its own status words. *)
 Definition C13_multi : Prop :=
-  (forall rs, rs <> [] -> multi_data_size rs < 65536 -> split_multi (Some (multi_data rs)) = ROk rs)
-  /\ (forall hdr rs reqs, length hdr = 50%nat -> bytes_ok hdr = true -> (exists s, nth_error hdr 46 = Some s /\ 128 <= s) ->
+  (forall rs, rs <> [] -> multi_data_size rs < 65536 -> split_multi (multi_data rs) = ROk rs)
+  /\ (forall hdr rs reqs, length hdr = 50%nat -> bytes_ok hdr = true -> u32_at 8 hdr = Some 0 ->
+        (exists s, nth_error hdr 46 = Some s /\ 128 <= s) ->
         rs <> [] -> multi_data_size rs < 65536 -> bytes_ok (multi_data rs) = true ->
-        exists r, parse_multi reqs (hdr ++ multi_data rs) = ROk (r, zip_sub rs reqs))
+        parse_multi reqs (hdr ++ multi_data rs) = (parse_unit (hdr ++ multi_data rs), zip_sub rs reqs))
   /\ (forall v d, bytes_ok d = true -> is_valid KUnit (s_r (sub_response (SWrite v) d)) = sub_success d)
   /\ (forall dec d, bytes_ok d = true ->
-        is_valid KUnit (s_r (sub_response (SRead dec) d)) = sub_success d && negb (is_err (parse_read_reply dec (skipn 4 d)))).
+        is_valid KUnit (s_r (sub_response (SRead dec) d)) = sub_success d && negb (is_err (parse_read_reply dec (skipn 4 d))))
+  (* per-service errors: non-empty text naming the service's own status *)
+  /\ (forall q d, bytes_ok d = true -> wf_sub_reply d = true -> sub_success d = false ->
+        exists t, error KUnit (s_r (sub_response q d)) = ROk (Some t) /\ t <> []
+          /\ exists gs, byte_at 2 d = Some gs /\ gs <> 0
+               /\ names_status service_status extend_codes gs (ext_value (sub_ext_status d)) t = true).
 
 (* 4. The public calls on ARBITRARY reply bytes. *)
-(* 4a. nothing but a library exception escapes *)
-Definition C13_library_only (guard : call -> list bytes -> bool) : Prop :=
-  forall c replies, bytes_list_ok replies -> guard c replies = false -> rm_is_library (run_call c replies) = true.
-(* 4b. a truthy result is backed by status words that say success *)
-Definition C13_success_backed (check_encap : bool) : Prop :=
+(* 4a. nothing but a library exception escapes — any call, any replies, no side condition *)
+Definition C13_library_only : Prop :=
+  forall c replies, rm_is_library (run_call c replies) = true.
+(* 4b. a truthy result is backed by status words that say success (for a service of a multi-service
+       reply: its own words AND the enclosing encapsulation status) *)
+Definition C13_success_backed : Prop :=
   (forall c k raw rest t, one_request c = true -> reply_kind c = Some k -> bytes_ok raw = true ->
      run_call c (raw :: rest) = ROk (OTags [t]) -> tag_truthy t = true ->
      spec_success (partial_k k) (layout_k k) raw = true)
@@ -58,19 +65,18 @@ Definition C13_success_backed (check_encap : bool) : Prop :=
   /\ (forall k raw rest t, k = KUnit \/ k = KRR -> bytes_ok raw = true -> run_call (CGeneric k None) (raw :: rest) = ROk (OTags [t]) ->
         tag_truthy t = spec_success (partial_k k) (layout_k k) raw)
   /\ (forall reqs raw rest tags i t, bytes_ok raw = true -> run_call (CMulti reqs) (raw :: rest) = ROk (OTags tags) ->
-        nth_error tags i = Some t -> tag_truthy t = true ->
-        (exists w, multi_sub_words raw i = Some w /\ sub_words_ok w = true)
-        /\ (check_encap = true -> multi_sub_success raw i = true))
+        nth_error tags i = Some t -> tag_truthy t = true -> multi_sub_success raw i = true)
   /\ (forall dec replies t, bytes_list_ok replies -> run_call (CReadFrag dec) replies = ROk (OTags [t]) -> tag_truthy t = true ->
         exists used rest, replies = used ++ rest /\ used <> [] /\ Forall (fun raw => spec_success true unit_layout raw = true) used)
   /\ (forall v n replies t, bytes_list_ok replies -> run_call (CWriteFrag v n) replies = ROk (OTags [t]) -> tag_truthy t = true ->
-        (n <= length replies)%nat /\ Forall (fun raw => spec_success true unit_layout raw = true) (firstn n replies))
+        (S n <= length replies)%nat /\ Forall (fun raw => spec_success true unit_layout raw = true) (firstn (S n) replies))
   /\ (forall replies, bytes_list_ok replies -> run_call COpen replies = ROk (OBool true) ->
         exists raw rest, replies = raw :: rest /\ encap_zero raw = true)
   /\ (forall f replies rest, bytes_list_ok replies -> with_forward_open f replies = ROk rest ->
         exists raw, In raw replies /\ spec_success false rr_layout raw = true).
-(* 4c. a well-formed error reply (header-only encapsulation error included) gives falsy results
-       with a non-empty error text — not an exception *)
+(* 4c. a well-formed error reply (header-only encapsulation error included; for a multi-service
+       request: an error reply without service data) gives falsy results with a non-empty error
+       text — not an exception, not a success *)
 Definition C13_wf_errors_falsy (guard : call -> bytes -> bool) : Prop :=
   forall c k raw rest, reply_kind c = Some k -> bytes_ok raw = true -> wf_error_for c k raw = true ->
     guard c raw = false -> all_falsy_with_text (run_call c (raw :: rest)).
@@ -79,105 +85,87 @@ Definition no_guard2 {A B} (_ : A) (_ : B) : bool := false.
 
 Definition C13_full : Prop :=
   C13_classification /\ C13_error_text /\ C13_multi
-  /\ C13_library_only no_guard2 /\ C13_success_backed true /\ C13_wf_errors_falsy no_guard2.
+  /\ C13_library_only /\ C13_success_backed /\ C13_wf_errors_falsy no_guard2.
 
-(* The faithful model FALSIFIES the full statement (DESIGN.md F11 and relatives): four concrete
-   replies, each also replayed on the implementation (corpus/C13). *)
+(* Everything but one input class of 4c holds without a guard on the code as it is now (after the
+   fix commits aa378e8 and 3c1cf16; DESIGN.md F11 and relatives are gone). *)
+Theorem C13_classification_holds : C13_classification.
+Proof. split; [exact unit_valid_iff|split; [exact rr_valid_iff|split; [exact register_valid_iff|exact base_valid_iff]]]. Qed.
+Theorem C13_error_text_holds : C13_error_text.
+Proof. split; [exact error_text_k|exact header_only_error]. Qed.
+Theorem C13_multi_holds : C13_multi.
+Proof. split; [exact multi_demux|split; [exact multi_demux_frame|split; [exact sub_response_write_iff|split; [exact sub_response_read_iff|exact sub_error_text]]]]. Qed.
+Theorem C13_library_only_holds : C13_library_only.
+Proof. exact library_only. Qed.
+Theorem C13_success_backed_holds : C13_success_backed.
+Proof.
+  split; [exact success_one_request|].
+  split; [intros v raw rest t Hok Hr; cbn [run_call] in Hr; apply one_reply_inv in Hr; exact (write_truthy_iff v raw t Hok Hr)|].
+  split; [intros k raw rest t Hk Hok Hr; cbn [run_call] in Hr; apply one_reply_inv in Hr; exact (generic_raw_truthy_iff k raw t Hk Hok Hr)|].
+  split; [exact success_multi|].
+  split; [intros dec replies t Hok Hr Ht; cbn [run_call] in Hr; apply tag_out_inv in Hr; exact (read_frag_truthy dec replies t Hok Hr Ht)|].
+  split; [intros v n replies t Hok Hr Ht; cbn [run_call] in Hr; apply tag_out_inv in Hr; exact (write_frag_truthy v (S n) replies t Hok Hr Ht)|].
+  split; [|exact with_forward_open_ok].
+  intros replies Hok Hr. apply (open_true replies Hok). cbn [run_call] in Hr.
+  destruct (open_call replies) as [b|]; [|discriminate Hr]. now injection Hr as ->.
+Qed.
+Print Assumptions C13_classification_holds.
+Print Assumptions C13_error_text_holds.
+Print Assumptions C13_multi_holds.
+Print Assumptions C13_library_only_holds.
+Print Assumptions C13_success_backed_holds.
+
+(* What the code still does: a multi-service request rejected with a general status and TWO (or more)
+   additional-status words — MultiServiceResponsePacket reads the additional status itself as reply
+   count and offset table (the data is taken at offset 50 whatever the additional-status size):
+   w_ext2 = status 5, additional status 0x0080 0x0000 makes the first write "succeed". *)
 Theorem C13_full_refuted : ~ C13_full.
 Proof.
-  intros (_ & _ & _ & Hlib & _ & _).
-  specialize (Hlib (CMulti two_reads) [w_count0]).
-  rewrite wit_stopiteration in Hlib. cbn in Hlib.
-  assert (H : false = true); [|discriminate H].
-  apply Hlib; [|reflexivity]. constructor; [apply wit_ok|constructor].
+  intros (_ & _ & _ & _ & _ & H). destruct wit_ext2 as [Hw (e & Hr)].
+  assert (Hok : bytes_ok w_ext2 = true) by apply wit_ok.
+  destruct (H (CMulti two_writes) KUnit w_ext2 [] eq_refl Hok Hw eq_refl) as (tags & Ht & _ & Hf).
+  rewrite Hr in Ht. injection Ht as <-. inversion Hf as [|? ? [Hfalsy _] _]. discriminate Hfalsy.
 Qed.
 Print Assumptions C13_full_refuted.
 
-(* each defect on its own *)
-Theorem C13_refuted_stopiteration : ~ C13_library_only no_guard2.
-Proof.
-  intros H. specialize (H (CMulti two_reads) [w_count0]). rewrite wit_stopiteration in H. cbn in H.
-  assert (Hf : false = true); [|discriminate Hf]. apply H; [|reflexivity]. constructor; [apply wit_ok|constructor].
-Qed.
-Theorem C13_refuted_typeerror :
-  run_call (CReadFrag dint_dec) [w_hdr] = RErr (Foreign TypeError) none_not_subscriptable /\ wf_header_only_error w_hdr = true.
-Proof. split; [exact wit_typeerror|reflexivity]. Qed.
-Theorem C13_refuted_multi_error_reply : ~ C13_wf_errors_falsy no_guard2.
-Proof.
-  intros H. destruct wit_multi_toperr as [Hw Hr].
-  destruct (H (CMulti two_reads) KUnit w_toperr [] eq_refl (proj1 (proj2 (proj2 wit_ok))) Hw eq_refl) as (tags & Ht & _).
-  rewrite Hr in Ht. discriminate Ht.
-Qed.
-Theorem C13_refuted_encap_ignored : ~ C13_success_backed true.
-Proof.
-  intros (_ & _ & _ & H & _). destruct wit_encap_ignored as (Hr & Hs & _).
-  destruct (H two_reads w_encap [] _ 0%nat _ (proj1 (proj2 (proj2 (proj2 wit_ok)))) Hr eq_refl eq_refl) as [_ Hbad].
-  rewrite Hs in Hbad. discriminate (Hbad eq_refl).
-Qed.
-Print Assumptions C13_refuted_typeerror.
-Print Assumptions C13_refuted_multi_error_reply.
-Print Assumptions C13_refuted_encap_ignored.
+(* the excluded input class: a multi-service call answered by a reply with encapsulation status 0
+   that announces two or more additional-status words *)
+Definition C13_guard (c : call) (raw : bytes) : bool :=
+  match c with CMulti _ => multi_ext_guard raw | _ => false end.
 
-(* The exact excluded input classes (computable):
-   - call_guard (Proofs/ReplyCalls.v): a multi-service reply whose offset table is empty (reply count
-     0 or the reply ends right after the count) -> StopIteration; a fragmented-read reply without
-     the service/status bytes or without the reply bit (self.data is None) -> TypeError; (request
-     side) a fragmented write of no segments -> IndexError.  call_guard_exact: on exactly these a
-     foreign exception DOES escape.
-   - C13_guard_wf: multi-service requests answered by an error reply without service data, and
-     fragmented reads answered by a header-only encapsulation error, raise instead of giving
-     falsy results.
-   - the enclosing encapsulation status of a multi-service reply is not consulted: per-service
-     results are backed by the per-service status words only. *)
-Definition C13_guard : call -> list bytes -> bool := call_guard.
-Definition C13_guard_wf (c : call) (raw : bytes) : bool :=
-  match c with CMulti _ => true | CReadFrag _ => wf_header_only_error raw | _ => false end.
-
-Definition C13_guarded_statement : Prop :=
+Theorem C13_guarded :
   C13_classification /\ C13_error_text /\ C13_multi
-  /\ C13_library_only C13_guard /\ C13_success_backed false /\ C13_wf_errors_falsy C13_guard_wf
-  /\ (forall reqs raw rest tags i t, bytes_ok raw = true -> encap_status raw = Some 0 ->
-        run_call (CMulti reqs) (raw :: rest) = ROk (OTags tags) -> nth_error tags i = Some t -> tag_truthy t = true ->
-        multi_sub_success raw i = true).
-
-Theorem C13_guarded : C13_guarded_statement.
+  /\ C13_library_only /\ C13_success_backed /\ C13_wf_errors_falsy C13_guard.
 Proof.
-  split; [|split; [|split; [|split; [|split; [|split]]]]].
-  - split; [exact unit_valid_iff|split; [exact rr_valid_iff|split; [exact register_valid_iff|exact base_valid_iff]]].
-  - split; [exact error_text_k|exact header_only_error].
-  - split; [exact multi_demux|split; [exact multi_demux_frame|split; [exact sub_response_write_iff|exact sub_response_read_iff]]].
-  - exact library_only_guarded.
-  - split; [exact success_one_request|].
-    split; [intros v raw rest t Hok Hr; cbn [run_call] in Hr; apply one_reply_inv in Hr; exact (write_truthy_iff v raw t Hok Hr)|].
-    split; [intros k raw rest t Hk Hok Hr; cbn [run_call] in Hr; apply one_reply_inv in Hr; exact (generic_raw_truthy_iff k raw t Hk Hok Hr)|].
-    split; [intros reqs raw rest tags i t Hok Hr Hi Ht; split; [exact (success_multi reqs raw rest tags i t Hok Hr Hi Ht)|discriminate]|].
-    split; [intros dec replies t Hok Hr Ht; cbn [run_call] in Hr; apply tag_out_inv in Hr; exact (read_frag_truthy dec replies t Hok Hr Ht)|].
-    split; [intros v n replies t Hok Hr Ht; cbn [run_call] in Hr; apply tag_out_inv in Hr; exact (write_frag_truthy v n replies t Hok Hr Ht)|].
-    split; [|exact with_forward_open_ok].
-    intros replies Hok Hr. apply (open_true replies Hok). cbn [run_call] in Hr.
-    destruct (open_call replies) as [b|]; [|discriminate Hr]. now injection Hr as ->.
-  - exact wf_errors_guarded.
-  - exact success_multi_encap.
+  split; [exact C13_classification_holds|split; [exact C13_error_text_holds|split; [exact C13_multi_holds|]]].
+  split; [exact C13_library_only_holds|split; [exact C13_success_backed_holds|exact wf_errors_guarded]].
 Qed.
 Print Assumptions C13_guarded.
 
-Theorem C13_guard_exact : forall c replies, bytes_list_ok replies -> C13_guard c replies = true ->
-  exists k m, run_call c replies = RErr (Foreign k) m.
-Proof. exact call_guard_exact. Qed.
-Print Assumptions C13_guard_exact.
-
-(* non-vacuity: a Read Tag success, a Read Tag error with extended status, and a mixed multi-service
-   reply go through the guarded statement's hypotheses with the expected results *)
+(* non-vacuity: a Read Tag success, a Read Tag error with extended status, a mixed multi-service
+   reply, and the four formerly failing replies go through the hypotheses with the expected results *)
 Example C13_nonvacuous :
-  C13_guard (CRead dint_dec) [w_read] = false
-  /\ run_call (CRead dint_dec) [w_read] = ROk (OTags [{| t_value := Some (VInt 42); t_error := None |}])
+  run_call (CRead dint_dec) [w_read] = ROk (OTags [{| t_value := Some (VInt 42); t_error := None |}])
   /\ spec_success true unit_layout w_read = true
-  /\ wf_error_for (CRead dint_dec) KUnit w_err = true /\ C13_guard_wf (CRead dint_dec) w_err = false
+  /\ wf_error_for (CRead dint_dec) KUnit w_err = true
   /\ (exists e, run_call (CRead dint_dec) [w_err] = ROk (OTags [{| t_value := None; t_error := Some e |}])
                 /\ names_status service_status extend_codes 255 (Some 8453) e = true)
-  /\ C13_guard (CMulti two_reads) [w_mixed] = false
   /\ (exists e, run_call (CMulti two_reads) [w_mixed]
                 = ROk (OTags [{| t_value := Some (VInt 7); t_error := None |}; {| t_value := None; t_error := Some e |}])
                 /\ names_status service_status extend_codes 5 (Some 0) e = true)
-  /\ multi_sub_success w_mixed 0 = true /\ multi_sub_success w_mixed 1 = false.
+  /\ multi_sub_success w_mixed 0 = true /\ multi_sub_success w_mixed 1 = false
+  /\ wf_error_for (CMulti two_reads) KUnit w_toperr = true /\ C13_guard (CMulti two_reads) w_toperr = false
+  /\ wf_error_for (CMulti two_reads) KUnit w_hdr = true /\ C13_guard (CMulti two_reads) w_hdr = false
+  /\ wf_error_for (CReadFrag dint_dec) KUnit w_hdr = true
+  /\ C13_guard (CMulti two_writes) w_ext2 = true.
 Proof. vm_compute. repeat split; try reflexivity; eexists; split; reflexivity. Qed.
+
+(* the formerly failing replies (corpus/C13), on the fixed code *)
+Example C13_fixed_witnesses :
+  run_call (CMulti two_reads) [w_count0]
+  = ROk (OTags [{| t_value := None; t_error := Some no_reply_received |}; {| t_value := None; t_error := Some no_reply_received |}])
+  /\ run_call (CReadFrag dint_dec) [w_hdr] = ROk (OTags [{| t_value := None; t_error := Some fragments_failed |}])
+  /\ (exists e, run_call (CMulti two_reads) [w_toperr] = ROk (OTags [{| t_value := None; t_error := Some e |}; {| t_value := None; t_error := Some e |}])
+                /\ names_status service_status extend_codes 8 None e = true)
+  /\ (exists e, run_call (CMulti two_reads) [w_encap] = ROk (OTags [{| t_value := None; t_error := Some e |}; {| t_value := None; t_error := Some e |}])).
+Proof. split; [exact wit_fixed_count0|split; [exact wit_fixed_frag_hdr|split; [exact wit_fixed_toperr|exact wit_fixed_encap]]]. Qed.
